@@ -681,6 +681,10 @@ def make_event_step(shape, prop_fn, constrain=None):
         for i in range(shape.get("leftover", 0)):
             left.append(Agg("adt:Rank", prog.enums["Rank"]["Other"], [SString([st.sym_char("l%d" % i)]), st.sym_bv("ld%d" % i, 8)]))
         entries = [(key_name("Key_a_Normal"), value)] if ev == "key" else []
+        if n > 0:
+            # invariant: while a text is composed the scratch list is the one assembled for it (every event that changes the text
+            # re-assembles it; preserved: clause `scratch_list_belongs_to_the_text`); under the assembly contract that is [First(text)]
+            left = [Agg("adt:Rank", prog.enums["Rank"]["First"], [SString(buf)])]
         fm = mk_fixed(prog, buf, typed, shape.get("pending"), left, entries)
         ctrl = st.sym_bool("ctrl") if ev == "backspace" else None
         index = st.sym_bv("commit_index", 64) if ev == "commit" else None
@@ -852,6 +856,21 @@ def session_prop(st, it, c, out):
         if ev == "nokey":
             clauses.append(("key_without_value_changes_nothing",
                             z3.And(seq_eq(buf, c["buf"]), seq_eq(typed, c["typed"])) if pend.variant == (1 if sh.get("pending") else 0) else False))
+    # C02: a returned list holds at least one candidate, the preselection is inside it, the auxiliary text is the composition
+    if isinstance(ret, Agg) and ret.kind == "adt:Suggestion" and ret.variant != single:
+        f = dict(zip(prog.enum_fields[("Suggestion", "Full")], ret.fields))
+        L = len(f["suggestions"].items)
+        clauses.append(("list_not_empty", L >= 1))
+        s_ = f["selection"]
+        clauses.append(("preselection_inside_list", (z3.ULT(bv(s_, 64), L) if is_sym(s_) else s_ < L)))
+        clauses.append(("auxiliary_is_the_composed_text", seq_eq(f["auxiliary"].elems, buf)))
+        clauses.append(("cover:fixed_list_returned", True))
+    # the scratch list belongs to the composed text (invariant preserved)
+    sug_items = fm_field(prog, fm, "suggestions").items
+    if len(buf) > 0:
+        okl = len(sug_items) == 1 and sug_items[0].variant == prog.enums["Rank"]["First"]
+        clauses.append(("scratch_list_belongs_to_the_text", z3.Implies(zb(c["opts"]["fixed_suggestion"]),
+                                                                        seq_eq(sug_items[0].fields[0].elems, buf) if okl else z3.BoolVal(False))))
     # invariant preservation (every event)
     o = c["opts"]
     inv = []
@@ -1383,7 +1402,8 @@ def make_layout_key(shape, prop_fn=None, constrain=None):
                                  z3.And(z3.Not(altgr), z3.BoolVal(asked == ["Key_%s_Normal" % stem])))
                 active = z3.BoolVal(True)
             elif kind == "numpad":
-                ok_names = z3.BoolVal(asked == [stem])
+                # with the number-pad option off the key is inert whether or not the entry is looked at
+                ok_names = z3.Or(z3.BoolVal(asked == [stem]), z3.And(z3.Not(numpad), z3.BoolVal(asked == [])))
                 active = numpad
             else:
                 ok_names = z3.BoolVal(asked == [])
